@@ -25,6 +25,44 @@ INF = 'dadi.Inference'
 NUM = 'dadi.Numerics'
 
 
+
+def mask_sources(e, env):
+    """names of the masked-array operands whose masks reach the value of e (numpy.ma semantics: arithmetic and ufuncs OR the
+    masks of their masked operands; `.data`, `.filled()`, numpy.asarray(...) strip the mask)"""
+    if isinstance(e, ast.Name):
+        return set(env.get(e.id, set()))
+    if isinstance(e, ast.Attribute):
+        if e.attr in ('data', 'mask', 'shape', 'size', 'ndim', 'sample_sizes', 'folded', 'pop_ids'):
+            return set()
+        return mask_sources(e.value, env)
+    if isinstance(e, ast.Constant):
+        return set()
+    if isinstance(e, ast.BinOp):
+        return mask_sources(e.left, env) | mask_sources(e.right, env)
+    if isinstance(e, ast.UnaryOp):
+        return mask_sources(e.operand, env)
+    if isinstance(e, ast.Subscript):
+        return mask_sources(e.value, env)
+    if isinstance(e, ast.Call):
+        f = dotted(e.func) or ''
+        last = f.split('.')[-1] if f else (e.func.attr if isinstance(e.func, ast.Attribute) else '')
+        if last in ('asarray', 'array', 'filled', 'getdata', 'compressed', 'tolist', 'float', 'sum', 'len'):
+            # reductions / conversions: no mask on the result (sum() skips masked entries but returns a scalar)
+            return set()
+        out = set()
+        if isinstance(e.func, ast.Attribute) and not (isinstance(e.func.value, ast.Name) and e.func.value.id in ('numpy', 'np', 'scipy', 'math')):
+            out |= mask_sources(e.func.value, env)          # method of a masked array: log(), copy(), ...
+        for a in e.args:
+            out |= mask_sources(a, env)
+        return out
+    if isinstance(e, (ast.Tuple, ast.List)):
+        out = set()
+        for x in e.elts:
+            out |= mask_sources(x, env)
+        return out
+    return set()
+
+
 def lik_translator(env=None):
     def attr_hook(tr, e):
         if e.attr == 'data' and isinstance(e.value, ast.Name):
@@ -70,10 +108,10 @@ def run(rep, prog, tier):
     rep.ob('R-ALG', 'll_per_bin formula', ok, 'result = %s' % (ast.unparse(res[0].value) if res else 'not found'), m.rel, res[0].lineno if res else lp.lineno,
            what='Poisson log-probability -m + d*log(m) - gammaln(d+1) of the two arguments')
     if res:
-        # mask propagation: the model enters through a masked expression (model.log()) and the data through gammaln(data ...)
-        t = ast.unparse(res[0].value)
-        okm = 'model.log()' in t and re.search(r'gammaln\(data', t) is not None
-        rep.ob('R-TPL', 'll_per_bin masks', okm, 'model.log() carries the model mask, gammaln(data+1) the data mask', m.rel, res[0].lineno, what='result is masked where either argument is masked')
+        # mask provenance: which whole (masked) operands reach the result through masked-array arithmetic; `.data` strips the mask
+        ms = mask_sources(res[0].value, {'model': {'model'}, 'data': {'data'}})
+        okm = ms >= {'model', 'data'}
+        rep.ob('R-MASK', 'll_per_bin masks', okm, 'the result carries the masks (and, through the Spectrum operators, the folding check) of %s' % sorted(ms), m.rel, res[0].lineno, what='result is masked where either argument is masked')
     rets = [n for n in own_nodes(lp) if isinstance(n, ast.Return)]
     stores = [n for n in own_nodes(lp) if isinstance(n, (ast.Assign, ast.AugAssign)) and 'result' in ast.unparse(n.targets[0] if isinstance(n, ast.Assign) else n.target).split('[')[0].split('.')[0:1]]
     okr = len(rets) >= 1 and all(ast.unparse(r.value) == 'result' for r in rets) and len(stores) == 1
